@@ -467,3 +467,226 @@ Proof.
     + cbn [alloc X]. rewrite ids_of_app. apply in_or_app. left. exact D3.
   - cbn. rewrite (i_nsub _ _ HI). unfold blen. rewrite app_length. cbn. lia.
 Qed.
+
+(** changing only the channels: queues may shrink, channels may be created empty or closed *)
+Lemma inv_chans : forall s m cs, Inv s m ->
+  (forall c mg q, queued (set_chans s cs) c mg q -> queued s c mg q) ->
+  (forall c ch, lookup cs c = Some ch -> qsorted (c_q ch)) ->
+  (forall c, closed_in s c -> closed_in (set_chans s cs) c) ->
+  Inv (set_chans s cs) m.
+Proof.
+  intros s m cs HI Hq Hs Hc.
+  constructor; try (unchanged HI).
+  - intros c mg q H. exact (i_q _ _ HI c mg q (Hq _ _ _ H)).
+  - exact Hs.
+  - intros t tp d rest pr H id Hin. destruct (i_fanq _ _ HI t tp d rest pr H id Hin) as [H1 H2].
+    split; [exact H1|]. intros c mg q Hqq. exact (H2 c mg q (Hq _ _ _ Hqq)).
+  - intro t. apply (pend_ok_frame s m); try (intros; assumption); try reflexivity; try lia; try exact Hc.
+    exact (i_pend _ _ HI t).
+  - intros c H. apply Hc. exact (i_closed _ _ HI c H).
+  - intros c mg q H. exact (i_pubs _ _ HI c mg q (Hq _ _ _ H)).
+  - intros id n H. destruct (i_dead _ _ HI id n H) as [D1 [D2 [D3 [D4 [D5 D6]]]]].
+    repeat split; try assumption. intros c mg q Hqq. exact (D6 c mg q (Hq _ _ _ Hqq)).
+Qed.
+
+Lemma queued_update : forall s c ch c' mg q,
+  queued (set_chans s (update (chans s) c ch)) c' mg q ->
+  (c = c' /\ In (mg, q) (c_q ch)) \/ (c <> c' /\ queued s c' mg q).
+Proof.
+  intros s c ch c' mg q [ch' [H1 H2]]. cbn in H1. rewrite lookup_update in H1.
+  destruct (c =? c') eqn:E.
+  - left. inversion H1. subst. split; [lia|exact H2].
+  - right. split; [lia|]. exists ch'. tauto.
+Qed.
+
+Lemma closed_update : forall s c ch c',
+  closed_in s c' -> (c = c' -> c_closed ch = true) -> closed_in (set_chans s (update (chans s) c ch)) c'.
+Proof.
+  intros s c ch c' [ch' [H1 H2]] Hc. unfold closed_in. cbn. rewrite lookup_update.
+  destruct (c =? c') eqn:E.
+  - exists ch. split; [reflexivity|]. apply Hc. lia.
+  - exists ch'. tauto.
+Qed.
+
+Lemma inv_start_chan : forall s m t c cap, Inv s m -> Inv (fst (start s t (OChan c cap))) m.
+Proof.
+  intros s m t c cap HI. unfold start. destruct (get_pc s t); try exact HI.
+  destruct (lookup (chans s) c) eqn:E; [exact HI|]. cbn [fst].
+  apply inv_chans; [exact HI| | |].
+  - intros c' mg q H. apply queued_update in H. destruct H as [[_ []]|[_ H]]. exact H.
+  - intros c' ch H. rewrite lookup_update in H. destruct (c =? c').
+    + inversion H. cbn. exact I.
+    + exact (i_qsorted _ _ HI c' ch H).
+  - intros c' H. apply closed_update; [exact H|]. intros ->. destruct H as [ch [H _]]. congruence.
+Qed.
+
+Lemma inv_mclosed : forall s m c, Inv s m -> closed_in s c ->
+  Inv s {| m_pend := m_pend m; m_known := m_known m; m_pubs := m_pubs m; m_last := m_last m;
+           m_dead := m_dead m; m_closed := c :: m_closed m; m_nsub := m_nsub m |}.
+Proof.
+  intros s m c HI Hc. constructor; try (unchanged HI).
+  - intros c' H. cbn in H. destruct (c' =? c) eqn:E.
+    + assert (c' = c) by lia. subst. exact Hc.
+    + cbn in H. exact (i_closed _ _ HI c' H).
+Qed.
+
+Lemma inv_start_close : forall s m t c, Inv s m -> get_pc s t = Idle ->
+  exists m', mon_run m (snd (start s t (OClose c))) = MOk m' /\ Inv (fst (start s t (OClose c))) m'.
+Proof.
+  intros s m t c HI Hidle. unfold start. rewrite Hidle.
+  assert (G : forall ch, (forall ch0, lookup (chans s) c = Some ch0 -> True) -> c_q ch = [] -> c_closed ch = true ->
+     Inv (set_chans s (update (chans s) c ch))
+       {| m_pend := m_pend m; m_known := m_known m; m_pubs := m_pubs m; m_last := m_last m;
+          m_dead := m_dead m; m_closed := c :: m_closed m; m_nsub := m_nsub m |}).
+  { intros ch _ Hq Hcl. apply inv_mclosed.
+    - apply inv_chans; [exact HI| | |].
+      + intros c' mg q H. apply queued_update in H. destruct H as [[_ H]|[_ H]]; [rewrite Hq in H; destruct H|exact H].
+      + intros c' ch' H. rewrite lookup_update in H. destruct (c =? c').
+        * inversion H. subst. rewrite Hq. exact I.
+        * exact (i_qsorted _ _ HI c' ch' H).
+      + intros c' H. apply closed_update; [exact H|]. intros _. exact Hcl.
+    - exists ch. split; [cbn; apply lookup_update_eq|exact Hcl]. }
+  destruct (lookup (chans s) c) as [ch|]; cbn [fst snd mon_run mon_step]; eexists; (split; [reflexivity|]);
+    apply G; auto.
+Qed.
+
+(** ---- receive ---- *)
+Definition set_lastq (s : state) (l : list (Z * nat)) : state :=
+  {| entries := entries s; next_id := next_id s; lock := lock s; chans := chans s;
+     pcs := pcs s; npub := npub s; alloc := alloc s; lastq := l |}.
+
+Lemma get_lastq_set : forall s id n id',
+  get_lastq (set_lastq s (update (lastq s) id n)) id' = if id =? id' then n else get_lastq s id'.
+Proof. intros. unfold get_lastq, set_lastq; cbn. rewrite lookup_update. destruct (id =? id'); reflexivity. Qed.
+
+Lemma get_last_upd : forall m kn id n id',
+  get_last {| m_pend := m_pend m; m_known := kn; m_pubs := m_pubs m; m_last := update (m_last m) id n;
+              m_dead := m_dead m; m_closed := m_closed m; m_nsub := m_nsub m |} id' =
+  if id =? id' then n else get_last m id'.
+Proof. intros. unfold get_last; cbn. rewrite lookup_update. destruct (id =? id'); reflexivity. Qed.
+
+Lemma inv_recv_state : forall s m id q kn p,
+  Inv s m ->
+  (q < npub s)%nat ->
+  (forall c' mg' q', queued s c' mg' q' -> m_id mg' = id -> (q < q')%nat) ->
+  (forall t tp' d rest pr, get_pc s t = PubFan tp' d rest pr -> In id (ids_of rest) -> (S q < npub s)%nat) ->
+  (forall n, lookup (m_dead m) id = Some n -> (q < n)%nat) ->
+  (forall id', match lookup kn id' with Some k => k_ret k | None => false end = is_returned m id') ->
+  (forall id' k, lookup kn id' = Some k -> In (mk id' (k_topic k) (k_chan k)) (alloc s)) ->
+  (p <= q)%nat ->
+  Inv (set_lastq s (update (lastq s) id (S q)))
+      {| m_pend := m_pend m; m_known := kn; m_pubs := m_pubs m; m_last := update (m_last m) id (S p);
+         m_dead := m_dead m; m_closed := m_closed m; m_nsub := m_nsub m |}.
+Proof.
+  intros s m id q kn p HI Hq Hnewer Hfan Hdead Hret Hkn Hpq.
+  set (m' := {| m_pend := m_pend m; m_known := kn; m_pubs := m_pubs m; m_last := update (m_last m) id (S p);
+         m_dead := m_dead m; m_closed := m_closed m; m_nsub := m_nsub m |}).
+  assert (Hret' : forall id', is_returned m' id' = is_returned m id') by (intro; apply Hret).
+  constructor; try (unchanged HI).
+  - intros c' mg' q' H. destruct (i_q _ _ HI c' mg' q' H) as [H1 [H2 H3]]. split; [exact H1|]. split; [exact H2|].
+    rewrite get_lastq_set. destruct (id =? m_id mg') eqn:E; [|exact H3].
+    assert (m_id mg' = id) by lia. pose proof (Hnewer _ _ _ H H0). lia.
+  - intro id'. rewrite get_lastq_set. destruct (id =? id'); [cbn [npub set_lastq]; lia|exact (i_lastq _ _ HI id')].
+  - intros t tp' d rest pr H id' Hin. destruct (i_fanq _ _ HI t tp' d rest pr H id' Hin) as [H1 H2].
+    split; [|exact H2]. rewrite get_lastq_set. destruct (id =? id') eqn:E; [|exact H1].
+    assert (id' = id) by lia. subst id'. pose proof (Hfan _ _ _ _ _ H Hin). cbn [npub set_lastq]. lia.
+  - intro t. refine (pend_ok_frame s m _ m' t _ _ _ _ _ _ (i_pend _ _ HI t)); try reflexivity; try (intros; assumption);
+      try (intros id' H; rewrite Hret'; exact H); try (cbn; lia).
+  - exact Hkn.
+  - intros e He. destruct (i_ret_or_pend _ _ HI e He) as [H|H]; [left; rewrite Hret'; exact H|right; exact H].
+  - intros id' t tp c H. rewrite Hret' in H. exact (i_ret_excl _ _ HI id' t tp c H).
+  - intro id'. rewrite get_lastq_set. unfold m'. rewrite get_last_upd.
+    destruct (id =? id'); [lia|exact (i_last _ _ HI id')].
+  - intros id' n H. destruct (i_dead _ _ HI id' n H) as [D1 [D2 [D3 [D4 [D5 D6]]]]].
+    repeat split; try assumption. rewrite get_lastq_set. destruct (id =? id') eqn:E; [|exact D5].
+    assert (id' = id) by lia. subst id'. pose proof (Hdead n H). lia.
+Qed.
+
+Definition recv_known (m : mstate) (c : Z) (mg : msg) : option (list (Z * known)) :=
+  match lookup (m_known m) (m_id mg) with
+  | Some k => if (k_topic k =? m_topic mg) && (k_chan k =? c) then Some (m_known m) else None
+  | None => if pending_sub m (m_topic mg) c
+            then Some (update (m_known m) (m_id mg) {| k_topic := m_topic mg; k_chan := c; k_ret := false |})
+            else None
+  end.
+
+Lemma mon_recv : forall m c mg kn p,
+  recv_known m c mg = Some kn ->
+  find_from (m_pubs m) O (get_last m (m_id mg)) (m_topic mg, m_data mg) = Some p ->
+  (forall n, lookup (m_dead m) (m_id mg) = Some n -> (p < n)%nat) ->
+  mon_step m (ERecv c (Some mg)) =
+  MOk {| m_pend := m_pend m; m_known := kn; m_pubs := m_pubs m; m_last := update (m_last m) (m_id mg) (S p);
+         m_dead := m_dead m; m_closed := m_closed m; m_nsub := m_nsub m |}.
+Proof.
+  intros m c mg kn p Hk Hf Hd. unfold recv_known in Hk. unfold mon_step. rewrite Hk, Hf.
+  destruct (lookup (m_dead m) (m_id mg)) as [n|]; [|reflexivity].
+  pose proof (Hd n eq_refl). destruct (n <=? p)%nat eqn:E; [apply Nat.leb_le in E; lia|reflexivity].
+Qed.
+
+Lemma pending_sub_true : forall m t p tp c, lookup (m_pend m) t = Some p -> p_op p = OSub tp c ->
+  pending_sub m tp c = true.
+Proof.
+  intros m t p tp c H Hop. unfold pending_sub. apply existsb_exists. exists (t, p).
+  split; [apply lookup_In; exact H|]. cbn. rewrite Hop. lia.
+Qed.
+
+Lemma recv_known_ok : forall s m c mg, Inv s m -> In (mk (m_id mg) (m_topic mg) c) (alloc s) ->
+  exists kn, recv_known m c mg = Some kn /\
+    (forall id', match lookup kn id' with Some k => k_ret k | None => false end = is_returned m id') /\
+    (forall id' k, lookup kn id' = Some k -> In (mk id' (k_topic k) (k_chan k)) (alloc s)).
+Proof.
+  intros s m c mg HI Ha. unfold recv_known. destruct (lookup (m_known m) (m_id mg)) as [k|] eqn:E.
+  - pose proof (i_known _ _ HI _ _ E) as Hk.
+    pose proof (nodup_ids_inj _ _ _ (i_alloc_nd _ _ HI) Hk Ha eq_refl) as Heq. inversion Heq as [[H1 H2]].
+    rewrite !Z.eqb_refl. cbn. exists (m_known m). split; [reflexivity|]. split; [intro; reflexivity|].
+    exact (i_known _ _ HI).
+  - destruct (i_ret_or_pend _ _ HI _ Ha) as [H|[t H]].
+    + cbn in H. unfold is_returned in H. rewrite E in H. discriminate.
+    + cbn in H. pose proof (i_pend _ _ HI t) as Hp. unfold pend_ok in Hp.
+      assert (Hps : pending_sub m (m_topic mg) c = true).
+      { destruct H as [H|H]; rewrite H in Hp; destruct Hp as [p [Hp1 Hp2]]; eapply pending_sub_true; eauto. }
+      rewrite Hps. eexists. split; [reflexivity|]. split.
+      * intro id'. rewrite lookup_update. unfold is_returned. destruct (m_id mg =? id') eqn:E1; [|reflexivity].
+        assert (id' = m_id mg) by lia. subst. rewrite E. reflexivity.
+      * intros id' k Hl. rewrite lookup_update in Hl. destruct (m_id mg =? id') eqn:E1.
+        -- inversion Hl. cbn. assert (id' = m_id mg) by lia. subst. exact Ha.
+        -- exact (i_known _ _ HI _ _ Hl).
+Qed.
+
+Lemma inv_start_recv : forall s m t c, Inv s m -> get_pc s t = Idle ->
+  exists m', mon_run m (snd (start s t (ORecv c))) = MOk m' /\ Inv (fst (start s t (ORecv c))) m'.
+Proof.
+  intros s m t c HI Hidle. unfold start. rewrite Hidle.
+  destruct (lookup (chans s) c) as [ch|] eqn:E; [|exists m; split; [reflexivity|exact HI]].
+  destruct (c_q ch) as [|[mg q] r] eqn:Eq; [exists m; split; [reflexivity|exact HI]|].
+  cbn [fst snd mon_run].
+  assert (Hqd : queued s c mg q) by (exists ch; split; [exact E|rewrite Eq; left; reflexivity]).
+  destruct (i_q _ _ HI _ _ _ Hqd) as [Hq1 [Hq2 Hq3]].
+  pose proof (i_pubs _ _ HI _ _ _ Hqd) as Hnth.
+  pose proof (i_qsorted _ _ HI _ _ E) as Hsort. rewrite Eq in Hsort. destruct Hsort as [Hfa Hsr].
+  set (ch' := {| c_cap := c_cap ch; c_q := r; c_closed := c_closed ch |}).
+  assert (HI1 : Inv (set_chans s (update (chans s) c ch')) m).
+  { apply inv_chans; [exact HI| | |].
+    - intros c' mg' q' H. apply queued_update in H. destruct H as [[<- H]|[_ H]]; [|exact H].
+      exists ch. split; [exact E|rewrite Eq; right; exact H].
+    - intros c' ch0 H. rewrite lookup_update in H. destruct (c =? c').
+      + inversion H. exact Hsr.
+      + exact (i_qsorted _ _ HI c' ch0 H).
+    - intros c' H. apply closed_update; [exact H|]. intros <-. destruct H as [ch0 [H1 H2]]. cbn. congruence. }
+  destruct (recv_known_ok _ _ c mg HI Hq2) as [kn [Hk1 [Hk2 Hk3]]].
+  destruct (find_from_spec (m_pubs m) O (get_last m (m_id mg)) (m_topic mg, m_data mg) q) as [p [Hf1 [Hf2 Hf3]]].
+  { pose proof (i_last _ _ HI (m_id mg)). lia. }
+  { lia. }
+  { rewrite Nat.sub_0_r. exact Hnth. }
+  assert (Hdead : forall n, lookup (m_dead m) (m_id mg) = Some n -> (q < n)%nat).
+  { intros n H. destruct (i_dead _ _ HI _ _ H) as [_ [_ [_ [_ [_ D6]]]]]. exact (D6 _ _ _ Hqd eq_refl). }
+  eexists. split.
+  { rewrite (mon_recv m c mg kn p Hk1 Hf1); [reflexivity|]. intros n H. pose proof (Hdead n H). lia. }
+  refine (inv_recv_state _ m (m_id mg) q kn p HI1 Hq1 _ _ Hdead Hk2 Hk3 Hf3).
+  - intros c' mg' q' H Hid. apply queued_update in H. destruct H as [[<- H]|[Hne H]].
+    + rewrite Forall_forall in Hfa. destruct (Hfa _ H) as [H1|[H1 H2]]; cbn in *; [exact H1|congruence].
+    + exfalso. destruct (i_q _ _ HI _ _ _ H) as [_ [H2 _]].
+      pose proof (nodup_ids_inj _ _ _ (i_alloc_nd _ _ HI) H2 Hq2 Hid) as Heq. inversion Heq. congruence.
+  - intros t' tp' d rest pr H Hin.
+    destruct (i_fanq _ _ HI t' tp' d rest pr H _ Hin) as [_ H2]. exact (H2 _ _ _ Hqd eq_refl).
+Qed.
